@@ -95,16 +95,21 @@ type replayer struct {
 	// committed at conflict number 1, every other one with a conflict-0 sibling that wrote the same storage tries
 	blind      bool
 	blindSteps int
-	baseCtr    int
-	sreg       *registry         // storage content <-> BuildStorageTrie hash
-	leaves     map[string]string // "content|address" -> hex of the committed account leaf
-	builds     int
-	leafChk    int
-	sideChk    int
+	// sparse chunk: before the first RevertTo on a State object only slot 1 of every address is read (this opens and
+	// warms the storage tries), the other slots are first read after a revert - straight from the trie the State
+	// keeps: a Stage in the middle of the history must not have written the (meanwhile reverted) slots into it
+	sparse      bool
+	sparseSteps int
+	baseCtr     int
+	sreg        *registry         // storage content <-> BuildStorageTrie hash
+	leaves      map[string]string // "content|address" -> hex of the committed account leaf
+	builds      int
+	leafChk     int
+	sideChk     int
 }
 
 func (rp *replayer) mode(w *world) string {
-	return fmt.Sprintf("%s, statedb=%v", []string{"SetStorage", "SetRawStorage", "EncodeStorage"}[rp.wmode], w.useSDB) + fmt.Sprintf(", blind=%v", rp.blind)
+	return fmt.Sprintf("%s, statedb=%v", []string{"SetStorage", "SetRawStorage", "EncodeStorage"}[rp.wmode], w.useSDB) + fmt.Sprintf(", blind=%v, sparse=%v", rp.blind, rp.sparse)
 }
 
 func (rp *replayer) viewLen() int    { return rp.na * (5 + rp.nk) }
@@ -127,14 +132,11 @@ func (rp *replayer) store(w *world, a, k, v int) {
 	}
 }
 
-// compare every getter of the whole universe with the expected view (storage getters only when withStorage)
-func (rp *replayer) compare(w *world, view []int, withStorage bool) string {
-	keys := make([]int, rp.nk)
+// compare every getter of the whole universe with the expected view (storage getters for the first nkeys slots)
+func (rp *replayer) compare(w *world, view []int, nkeys int) string {
+	keys := make([]int, nkeys)
 	for i := range keys {
 		keys[i] = i + 1
-	}
-	if !withStorage {
-		keys = nil
 	}
 	for a := 1; a <= rp.na; a++ {
 		e := view[(a-1)*(5+rp.nk) : a*(5+rp.nk)]
@@ -414,6 +416,7 @@ func (rp *replayer) run(bi int, b [][]int) (v *violation) {
 	}
 	deleted := map[int]bool{} // addresses deleted in the current State object
 	staged := false           // the current State object was staged at least once
+	reverted := false         // ... was reverted at least once
 	var stagedContent []int
 	defer func() {
 		if r := recover(); r != nil {
@@ -475,6 +478,7 @@ func (rp *replayer) run(bi int, b [][]int) (v *violation) {
 			}
 		case 9:
 			w.revertTo(x)
+			reverted = true
 		case 10:
 			h, _, serr := w.doStage()
 			if serr != nil {
@@ -504,7 +508,7 @@ func (rp *replayer) run(bi int, b [][]int) (v *violation) {
 				rp.flushes++
 			}
 			w.open(w.commits[x-1])
-			deleted, staged = map[int]bool{}, false
+			deleted, staged, reverted = map[int]bool{}, false, false
 		default:
 			panic(fmt.Sprintf("HARNESS: unknown op %d", op))
 		}
@@ -515,7 +519,14 @@ func (rp *replayer) run(bi int, b [][]int) (v *violation) {
 		if !sighted {
 			rp.blindSteps++
 		}
-		if what := rp.compare(w, view, sighted); what != "" {
+		nkeys := rp.nk
+		if !sighted {
+			nkeys = 0
+		} else if rp.sparse && !reverted {
+			nkeys = 1
+			rp.sparseSteps++
+		}
+		if what := rp.compare(w, view, nkeys); what != "" {
 			return fail("read", what)
 		}
 		if what := rp.compareSide(w, side); what != "" {
@@ -612,6 +623,7 @@ func replayMain(in, out string, na, nk int, seed int64, limit int) {
 			}
 			// every fifth chunk is blind (see replayer.blind)
 			rp.d, rp.bases, rp.wmode, rp.sdbChunk, rp.blind = newDB(cache), map[string]trie.Root{}, (c/2)%3, c >= 6, (i/chunk+int(seed))%5 == 4
+			rp.sparse = (i/chunk+int(seed))%5 == 3 // and every fifth one sparse
 		}
 		if v := rp.run(i, b); v != nil {
 			viols = append(viols, v)
@@ -632,7 +644,7 @@ func replayMain(in, out string, na, nk int, seed int64, limit int) {
 		"reopens": rp.reopens, "code_cache_flushes": rp.flushes,
 		"distinct_contents": len(reg.byContent), "distinct_roots": len(reg.byRoot), "stage_hits_on_known_content": reg.hits,
 		"violations": viols, "roots": roots, "sroots": sroots, "leaves": rp.leaves, "na": na, "nk": nk,
-		"build_storage_trie_calls": rp.builds, "committed_leaf_checks": rp.leafChk, "side_journal_checks": rp.sideChk, "blind_steps": rp.blindSteps,
+		"build_storage_trie_calls": rp.builds, "committed_leaf_checks": rp.leafChk, "side_journal_checks": rp.sideChk, "blind_steps": rp.blindSteps, "sparse_steps": rp.sparseSteps,
 	}
 	writeJSON(out, res)
 	fmt.Printf("{\"replayed\":%d,\"steps\":%d,\"stages\":%d,\"distinct_roots\":%d,\"violations\":%d}\n",
